@@ -92,4 +92,24 @@ bool apply_setter(U& u, int which, std::string_view v) {
   return true;
 }
 
+// apply a setter or an extended operation (clear_*, copy, reparse)
+template <class U>
+bool apply_op(U& u, int which, std::string_view v) {
+  if (which < 10) return apply_setter(u, which, v);
+  constexpr bool agg = std::is_same_v<U, ada::url_aggregator>;
+  switch (which) {
+    case OP_CLEAR_PORT: if constexpr (agg) u.clear_port(); else u.set_port(""); return true;
+    case OP_CLEAR_HASH: if constexpr (agg) u.clear_hash(); else u.set_hash(""); return true;
+    case OP_CLEAR_SEARCH: if constexpr (agg) u.clear_search(); else u.set_search(""); return true;
+    case OP_COPY: { U t(u); u = U(); u = t; return true; }
+    case OP_REPARSE: {
+      auto r = ada::parse<U>(std::string(u.get_href()));
+      if (!r) return false;
+      u = std::move(*r);
+      return true;
+    }
+  }
+  return true;
+}
+
 }  // namespace vf
